@@ -286,7 +286,9 @@ def extract(repo):
 
 def to_lean(table):
     def s(x):
-        return '"' + x + '"'
+        # a key the analysis cannot resolve statically (computed key, helper taking the key as a parameter) becomes a
+        # name no protocol entry knows: the table is then not Coherent and the obligation `coherent_table` fails
+        return '"' + (x if isinstance(x, str) else "<dynamic>").replace('"', "'") + '"'
 
     def sl(xs):
         return "[" + ", ".join(s(x) for x in xs) + "]"
@@ -320,7 +322,14 @@ def to_lean(table):
 
 def generate(gen_dir, write_if_changed):
     from common import REPO
-    table = extract(REPO)
+    try:
+        table = extract(REPO)
+    except Exception as e:  # noqa: BLE001
+        # the translator cannot read the caching code any more (it was restructured): the tie is broken, which is for
+        # the check to report (broken obligation -> escalated history search), not a crash of the check
+        table = [{"cls": "Flwdir", "name": "<extraction failed: %s>" % type(e).__name__, "public": True, "params": [],
+                  "reads": [("<unknown>", ["<unknown>"])], "writes": [("<unknown>", ["<unknown>"], False)], "pops": [],
+                  "memo_set": [], "memo_reset": [], "mutates": []}]
     json_path = os.path.join(os.path.dirname(os.path.abspath(__file__)), "..", "lean", "PfVerif", "Generated", "cache_protocol.json")
     changed = write_if_changed(os.path.join(gen_dir, "CacheProtocol.lean"), to_lean(table))
     write_if_changed(os.path.join(gen_dir, "cache_protocol.json"), json.dumps(table, indent=1, default=list) + "\n")
